@@ -1,3 +1,4 @@
+From Coq Require Import Sorted.
 From Coq Require Import QArith ZArith List Bool Arith Lia Lqa.
 Import ListNotations.
 Require Import Plinio.Base.Qx Plinio.Model.Masks.
@@ -290,29 +291,197 @@ Qed.
 Theorem dilation_opt_ge_1 K d0 gamma : 1 <= d0 -> 1 <= dilation_opt true K d0 gamma.
 Proof. intro H. unfold dilation_opt. nia. Qed.
 
-(* ---------------------------------------------------------------- bounded combinatorics (K <= 64):
+(* ---------------------------------------------------------------- tap combinatorics, for EVERY K:
    for every pattern the kept taps are an arithmetic progression ending at the most recent timestep,
    whose step is the exported dilation and whose length is the exported kernel size *)
-Fixpoint eqlist (a b : list nat) : bool :=
-  match a, b with [], [] => true | x :: a', y :: b' => Nat.eqb x y && eqlist a' b' | _, _ => false end.
-Lemma eqlist_eq a b : eqlist a b = true -> a = b.
+(* ---------- longest zero run of a comb with spacing s, for every K *)
+Definition comb_s (s K : nat) : list bool := map (fun j => Nat.eqb ((K - 1 - j) mod s) 0) (seq 0 K).
+
+Lemma comb_s_S s K : comb_s s (S K) = Nat.eqb (K mod s) 0 :: comb_s s K.
 Proof.
-  revert b. induction a as [|x a IH]; intros [|y b] H; cbn in H; try discriminate; [reflexivity|].
-  apply andb_prop in H as [H1 H2]. apply Nat.eqb_eq in H1. subst. f_equal. apply IH. exact H2.
+  unfold comb_s. rewrite <- cons_seq, <- seq_shift. cbn [map]. rewrite map_map.
+  f_equal.
+  - replace (S K - 1 - 0) with K by lia. reflexivity.
+  - apply map_ext. intro j. replace (S K - 1 - S j) with (K - 1 - j) by lia. reflexivity.
 Qed.
 
-Definition check_pattern (K r v : nat) : bool :=
-  let m := pattern K r v in
-  let dil := S (lzr (comb_pattern K v) 0 0) in
-  Nat.eqb dil (2 ^ v) && eqlist (kept_lags K m) (export_lags (count_true m) dil) && Nat.leb 1 (count_true m).
+Definition runF (s K cur : nat) : nat :=
+  match K with
+  | 0 => cur
+  | S k => Nat.max (cur + k mod s) (if Nat.leb 1 (k / s) then s - 1 else 0)
+  end.
 
-Definition check_all (Kmax : nat) : bool :=
-  forallb (fun K => forallb (fun r => forallb (fun v => check_pattern K r v) (seq 0 (gamma_len K))) (seq 1 K)) (seq 1 Kmax).
+Lemma lzr_comb s K : 1 <= s -> forall cur best, lzr (comb_s s K) cur best = Nat.max best (runF s K cur).
+Proof.
+  intro Hs. induction K as [|K IH]; intros cur best.
+  - cbn. lia.
+  - rewrite comb_s_S. destruct (Nat.eqb (K mod s) 0) eqn:E.
+    + apply Nat.eqb_eq in E. cbn [lzr]. rewrite IH.
+      unfold runF at 2. 
+      destruct K as [|k].
+      * cbn [runF]. rewrite Nat.mod_0_l, Nat.div_0_l by lia. cbn. lia.
+      * cbn [runF].
+        pose proof (Nat.div_mod (S k) s ltac:(lia)) as D1.
+        pose proof (Nat.div_mod k s ltac:(lia)) as D2.
+        pose proof (Nat.mod_upper_bound k s ltac:(lia)) as B2.
+        rewrite E in *.
+        assert (Hq : 1 <= S k / s) by (destruct (S k / s); [lia|lia]).
+        assert (Hk : k mod s = s - 1 /\ k / s = S k / s - 1).
+        { assert (k = (S k / s - 1) * s + (s - 1)) by nia.
+          split.
+          - rewrite H at 1. rewrite Nat.add_comm, Nat.mod_add by lia. apply Nat.mod_small. lia.
+          - rewrite H at 1. rewrite Nat.add_comm, Nat.div_add by lia. rewrite Nat.div_small by lia. lia. }
+        destruct Hk as [Hk1 Hk2]. rewrite Hk1.
+        destruct (Nat.leb 1 (S k / s)) eqn:L1; [|apply Nat.leb_gt in L1; lia].
+        destruct (Nat.leb 1 (k / s)); lia.
+    + apply Nat.eqb_neq in E. cbn [lzr]. rewrite IH.
+      destruct K as [|k]; [rewrite Nat.mod_0_l in E by lia; lia|].
+      cbn [runF].
+      pose proof (Nat.div_mod (S k) s ltac:(lia)) as D1.
+      pose proof (Nat.div_mod k s ltac:(lia)) as D2.
+      pose proof (Nat.mod_upper_bound k s ltac:(lia)) as B2.
+      pose proof (Nat.mod_upper_bound (S k) s ltac:(lia)) as B1.
+      assert (Hk : S k mod s = S (k mod s) /\ S k / s = k / s).
+      { assert (Hlt : S (k mod s) < s).
+        { destruct (Nat.eq_dec (S (k mod s)) s) as [Heq|]; [|lia].
+          exfalso. apply E. assert (S k = (k / s + 1) * s + 0) by nia. rewrite H.
+          rewrite Nat.add_0_r, Nat.mod_mul by lia. reflexivity. }
+        assert (S k = k / s * s + S (k mod s)) by nia.
+        split.
+        - rewrite H at 1. rewrite Nat.add_comm, Nat.mod_add by lia. apply Nat.mod_small. lia.
+        - rewrite H at 1. rewrite Nat.add_comm, Nat.div_add by lia. rewrite Nat.div_small by lia. lia. }
+      destruct Hk as [Hk1 Hk2]. rewrite Hk1, Hk2. lia.
+Qed.
 
-Lemma check_all_64 : check_all 64 = true.
-Proof. vm_compute. reflexivity. Qed.
+Lemma dil_of_comb s K : 1 <= s -> (s <= K - 1 \/ (K = 1 /\ s = 1)) -> 1 <= K -> S (lzr (comb_s s K) 0 0) = s.
+Proof.
+  intros Hs Hc HK. rewrite lzr_comb by exact Hs. destruct K as [|k]; [lia|]. cbn [runF].
+  pose proof (Nat.mod_upper_bound k s ltac:(lia)) as B.
+  destruct Hc as [Hc|[Hc1 Hc2]].
+  - assert (1 <= k / s) by (apply Nat.div_le_lower_bound; lia).
+    destruct (Nat.leb 1 (k / s)) eqn:L; [|apply Nat.leb_gt in L; lia]. lia.
+  - assert (k = 0) by lia. subst. cbn. reflexivity.
+Qed.
 
-Theorem kept_taps_progression_64 K d0 beta gamma : 1 <= K <= 64 -> length beta = K -> length gamma = gamma_len K ->
+(* ---------- strictly decreasing lists with the same elements are equal *)
+Lemma sorted_same_elems (l1 l2 : list nat) : StronglySorted gt l1 -> StronglySorted gt l2 ->
+  (forall x, In x l1 <-> In x l2) -> l1 = l2.
+Proof.
+  revert l2. induction l1 as [|a l1 IH]; intros l2 S1 S2 H.
+  - destruct l2 as [|b l2]; [reflexivity|]. exfalso. apply (proj2 (H b)). left. reflexivity.
+  - destruct l2 as [|b l2]; [exfalso; apply (proj1 (H a)); left; reflexivity|].
+    inversion S1 as [|? ? S1' F1]; subst. inversion S2 as [|? ? S2' F2]; subst.
+    rewrite Forall_forall in F1, F2.
+    assert (a = b).
+    { destruct (proj1 (H a) (or_introl eq_refl)) as [E|I]; [congruence|].
+      destruct (proj2 (H b) (or_introl eq_refl)) as [E|I']; [congruence|].
+      specialize (F2 _ I). specialize (F1 _ I'). lia. }
+    subst b. f_equal. apply IH; try assumption.
+    intro x. split; intro I.
+    + destruct (proj1 (H x) (or_intror I)) as [E|I']; [|exact I']. subst. specialize (F1 _ I). lia.
+    + destruct (proj2 (H x) (or_intror I)) as [E|I']; [|exact I']. subst. specialize (F2 _ I). lia.
+Qed.
+
+Lemma seq_sorted a n : StronglySorted lt (seq a n).
+Proof.
+  revert a. induction n as [|n IH]; intro a; cbn; constructor; [apply IH|].
+  apply Forall_forall. intros x Hx. apply in_seq in Hx. lia.
+Qed.
+
+Lemma filter_sorted {A} (R : A -> A -> Prop) p l : StronglySorted R l -> StronglySorted R (filter p l).
+Proof.
+  induction 1 as [|a l S IH F]; cbn; [constructor|].
+  destruct (p a); [|exact IH]. constructor; [exact IH|].
+  rewrite Forall_forall in *. intros x Hx. apply filter_In in Hx. apply F. tauto.
+Qed.
+
+Lemma map_antitone_sorted (f : nat -> nat) l : StronglySorted lt l ->
+  (forall x y, In x l -> In y l -> x < y -> f x > f y) -> StronglySorted gt (map f l).
+Proof.
+  induction 1 as [|a l S IH F]; intro Hf; cbn; constructor.
+  - apply IH. intros x y Hx Hy. apply Hf; right; assumption.
+  - rewrite Forall_forall in *. intros y Hy. apply in_map_iff in Hy as [x [<- Hx]].
+    apply Hf; [left; reflexivity|right; exact Hx|apply F; exact Hx].
+Qed.
+
+Definition pattern_s (s K r : nat) : list bool :=
+  map (fun j => Nat.eqb ((K - 1 - j) mod s) 0 && (K - r <=? j)) (seq 0 K).
+
+Lemma kept_lags_sorted K m : StronglySorted gt (kept_lags K m).
+Proof.
+  unfold kept_lags. apply map_antitone_sorted.
+  - apply filter_sorted, seq_sorted.
+  - intros x y Hx Hy Hlt. apply filter_In in Hx as [Hx _]. apply filter_In in Hy as [Hy _].
+    apply in_seq in Hx. apply in_seq in Hy. lia.
+Qed.
+
+Lemma export_lags_sorted n s : 1 <= s -> StronglySorted gt (export_lags n s).
+Proof.
+  intro Hs. unfold export_lags. apply map_antitone_sorted; [apply seq_sorted|].
+  intros x y Hx Hy Hlt. apply in_seq in Hx. apply in_seq in Hy. nia.
+Qed.
+
+Lemma in_kept_lags_pattern s K r l : 1 <= s -> 1 <= r <= K ->
+  In l (kept_lags K (pattern_s s K r)) <-> l mod s = 0 /\ l <= r - 1.
+Proof.
+  intros Hs Hr. unfold kept_lags. rewrite in_map_iff. split.
+  - intros [j [<- Hj]]. apply filter_In in Hj as [Hj Hp]. apply in_seq in Hj.
+    unfold pattern_s in Hp. rewrite nth_map_seq in Hp by lia.
+    apply andb_prop in Hp as [H1 H2]. apply Nat.eqb_eq in H1. apply Nat.leb_le in H2. split; [exact H1|lia].
+  - intros [H1 H2]. exists (K - 1 - l). split; [lia|]. apply filter_In. split; [apply in_seq; lia|].
+    unfold pattern_s. rewrite nth_map_seq by lia. replace (K - 1 - (K - 1 - l)) with l by lia.
+    apply andb_true_intro. split; [apply Nat.eqb_eq; exact H1|apply Nat.leb_le; lia].
+Qed.
+
+Lemma in_export_lags n s l : 1 <= s -> In l (export_lags n s) <-> l mod s = 0 /\ l / s <= n - 1 /\ 1 <= n.
+Proof.
+  intro Hs. unfold export_lags. rewrite in_map_iff. split.
+  - intros [i [<- Hi]]. apply in_seq in Hi. rewrite Nat.mod_mul, Nat.div_mul by lia. lia.
+  - intros [H1 [H2 H3]]. exists (n - 1 - l / s). split; [|apply in_seq; lia].
+    replace (n - 1 - (n - 1 - l / s)) with (l / s) by lia.
+    pose proof (Nat.div_mod l s ltac:(lia)). nia.
+Qed.
+
+Theorem kept_lags_pattern s K r : 1 <= s -> 1 <= r <= K ->
+  kept_lags K (pattern_s s K r) = export_lags ((r - 1) / s + 1) s.
+Proof.
+  intros Hs Hr. apply sorted_same_elems; [apply kept_lags_sorted|apply export_lags_sorted; exact Hs|].
+  intro l. rewrite in_kept_lags_pattern, in_export_lags by assumption. split.
+  - intros [H1 H2]. split; [exact H1|]. split; [|lia].
+    replace ((r - 1) / s + 1 - 1) with ((r - 1) / s) by lia. apply Nat.div_le_mono; lia.
+  - intros [H1 [H2 _]]. split; [exact H1|].
+    replace ((r - 1) / s + 1 - 1) with ((r - 1) / s) in H2 by lia.
+    pose proof (Nat.div_mod l s ltac:(lia)). pose proof (Nat.div_mod (r - 1) s ltac:(lia)). nia.
+Qed.
+
+Lemma filter_map_S b (m : list bool) l :
+  filter (fun j => nth j (b :: m) false) (map S l) = map S (filter (fun j => nth j m false) l).
+Proof.
+  induction l as [|x l IHl]; [reflexivity|].
+  simpl in *. destruct (nth x m false); simpl; rewrite IHl; reflexivity.
+Qed.
+
+Lemma filter_index_length (m : list bool) :
+  length (filter (fun b => b) m) = length (filter (fun j => nth j m false) (seq 0 (length m))).
+Proof.
+  induction m as [|b m IH]; [reflexivity|].
+  cbn [length]. rewrite <- cons_seq, <- seq_shift.
+  set (p := fun j => nth j (b :: m) false).
+  change (filter p (0 :: map S (seq 0 (length m)))) with (if p 0 then 0 :: filter p (map S (seq 0 (length m))) else filter p (map S (seq 0 (length m)))).
+  unfold p. rewrite filter_map_S. cbn [nth filter].
+  destruct b; cbn [length]; rewrite map_length, IH; reflexivity.
+Qed.
+
+Lemma count_true_kept_lags K m : length m = K -> count_true m = length (kept_lags K m).
+Proof.
+  intro H. unfold count_true, kept_lags. rewrite map_length, <- H. apply filter_index_length.
+Qed.
+
+Lemma export_lags_length n s : length (export_lags n s) = n.
+Proof. unfold export_lags. rewrite map_length, seq_length. reflexivity. Qed.
+
+(* ---------- the general statement: every K *)
+Theorem kept_taps_progression K d0 beta gamma : 1 <= K -> length beta = K -> length gamma = gamma_len K ->
   let m := time_mask true K beta gamma in
   let k' := kernel_size_opt true K beta gamma in
   exists v, v < gamma_len K /\ dilation_opt true K d0 gamma = 2 ^ v * d0 /\
@@ -321,16 +490,31 @@ Proof.
   intros HK Hb Hg. cbn zeta.
   assert (Hgne : gamma <> []).
   { intro E. subst. cbn in Hg. unfold gamma_len in Hg. lia. }
-  destruct (time_mask_pattern K beta gamma ltac:(lia) Hb Hgne) as [r [v [Hr [Hv [Em Ec]]]]].
+  destruct (time_mask_pattern K beta gamma HK Hb Hgne) as [r [v [Hr [Hv [Em Ec]]]]].
   rewrite Hg in Hv. exists v. split; [exact Hv|].
-  pose proof check_all_64 as H. unfold check_all in H. rewrite forallb_forall in H.
-  specialize (H K ltac:(apply in_seq; lia)). rewrite forallb_forall in H.
-  specialize (H r ltac:(apply in_seq; lia)). rewrite forallb_forall in H.
-  specialize (H v ltac:(apply in_seq; lia)). unfold check_pattern in H.
-  apply andb_prop in H as [H H3]. apply andb_prop in H as [H1 H2].
-  apply Nat.eqb_eq in H1. apply eqlist_eq in H2. apply Nat.leb_le in H3.
-  unfold dilation_opt, kernel_size_opt. rewrite Ec, Em. rewrite H1 in *. repeat split; assumption.
+  assert (Hs : 1 <= 2 ^ v) by (pose proof (Nat.pow_nonzero 2 v); lia).
+  assert (Hc : 2 ^ v <= K - 1 \/ (K = 1 /\ 2 ^ v = 1)).
+  { unfold gamma_len in Hv. destruct (Nat.eq_dec K 1) as [->|Hne].
+    - right. split; [reflexivity|]. cbn in Hv. assert (v = 0) by lia. subst. reflexivity.
+    - left. assert (v < Nat.log2_up K).
+      { assert (1 <= Nat.log2_up K) by (apply Nat.log2_up_pos; lia). lia. }
+      apply Nat.log2_up_lt_pow2 in H; lia. }
+  change (pattern K r v) with (pattern_s (2 ^ v) K r) in Em.
+  change (comb_pattern K v) with (comb_s (2 ^ v) K) in Ec.
+  unfold dilation_opt, kernel_size_opt. rewrite Ec, Em.
+  rewrite dil_of_comb by assumption.
+  assert (Hlen : length (pattern_s (2 ^ v) K r) = K) by (unfold pattern_s; rewrite map_length, seq_length; reflexivity).
+  rewrite (count_true_kept_lags K _ Hlen), kept_lags_pattern by assumption.
+  rewrite export_lags_length. repeat split; lia.
 Qed.
+
+(* kept for the developments that were written against the earlier bounded statement *)
+Corollary kept_taps_progression_64 K d0 beta gamma : 1 <= K <= 64 -> length beta = K -> length gamma = gamma_len K ->
+  let m := time_mask true K beta gamma in
+  let k' := kernel_size_opt true K beta gamma in
+  exists v, v < gamma_len K /\ dilation_opt true K d0 gamma = 2 ^ v * d0 /\
+            kept_lags K m = export_lags k' (2 ^ v) /\ 1 <= k'.
+Proof. intros HK. apply kept_taps_progression. lia. Qed.
 
 (* the pinned upstream commit (comb anchored at tap 0, suffix at tap K-1) can lose every tap *)
 Lemma time_mask_empty_refuted_v0 : exists K beta gamma, length beta = K /\ length gamma = gamma_len K /\
